@@ -147,7 +147,9 @@ let op_parse f =
 (* ---- conformance suite derived from the model's control automaton -------------------
    Breadth-first search over the control states reachable from CStart (one representative
    character per atom), giving each state its shortest access string and a shortest accepting
-   completion.  The suite is  access(s) . c . w  for every reachable state s, every character c
+   completion.  The characters put after the access strings are [suite_chars] (Base/SuiteChars.v:
+   one per atom plus 'A'; Proofs/SwitchRefine.v shows that they enter every case group of every
+   character switch of the parser, as translated from the C source).  The suite is  access(s) . c . w  for every reachable state s, every character c
    of the chosen alphabet and w in {empty, completion of the target}. *)
 let suite (mode : int) : string =
   let tbl : (ctrl, int list) Hashtbl.t = Hashtbl.create 4096 in
@@ -186,12 +188,12 @@ let suite (mode : int) : string =
         | Stop _ -> ()) atoms) states
   done;
   let chars =
-    if mode = 0 then List.map (fun a -> int_of_n (atom_rep a)) atoms
+    if mode = 0 then List.map int_of_n suite_chars     (* one per atom, plus what Base/SuiteChars.v adds ('A') *)
     else if mode = 2 then
       (* wide-only aliases: after every access string, each class representative shifted by 256 and by 65536: a code point that
          no rule admits but that looks like a valid character once truncated to 8 or 16 bits; followed by the completion the
          valid character would have had *)
-      List.concat_map (fun a -> let c = int_of_n (atom_rep a) in [c + 256; c + 65536]) atoms
+      List.concat_map (fun r -> let c = int_of_n r in [c + 256; c + 65536]) suite_chars
     else List.init 128 (fun i -> i) @ [128; 200; 255] in
   let base_of ch = if mode = 2 then (if ch >= 65536 then ch - 65536 else ch - 256) else ch in
   let buf = Buffer.create (1 lsl 20) in
@@ -258,16 +260,17 @@ let suite2 (stride : int) (phase : int) : string =
       match snd (ptrans c (atom_of (n_of_int ch))) with
       | Stop _ -> ()
       | Go c1 ->
-        List.iter (fun a ->
+        List.iter (fun rn ->
+          let a = atom_of rn in
           incr n;
           if !n mod stride = phase then begin
-            let r = int_of_n (atom_rep a) in
+            let r = int_of_n rn in
             let s2 = acc @ [ch; r] in
             emit s2;
             (match snd (ptrans c1 a) with
              | Go c2 -> (match Hashtbl.find_opt comp c2 with Some w when w <> [] -> emit (s2 @ w) | _ -> ())
              | Stop _ -> ())
-          end) atoms) chars) states;
+          end) suite_chars) chars) states;
   Buffer.contents buf
 
 (* ---- RFC 3986 oracle: membership and first dead character (memoised derivatives) ------- *)
